@@ -152,28 +152,28 @@ type opCall struct {
 }
 
 type scriptOps struct {
-	w       *sumworld.World
-	mu      sync.Mutex
-	cfg     []byte
-	disk    map[string][]byte
-	remote  map[string][]scripted // by abstract file
-	cache   map[string][]scripted
-	served  map[string]int
-	calls   []opCall
-	sec     []string
-	cfgHist []sumworld.HeadLabel // heads ever stored
-	viol    []core.Violation
+	w                *sumworld.World
+	mu               sync.Mutex
+	cfg              []byte
+	disk             map[string][]byte
+	remote           map[string][]scripted // by abstract file
+	cache            map[string][]scripted
+	served           map[string]int
+	calls            []opCall
+	sec              []string
+	cfgHist          []sumworld.HeadLabel // heads ever stored
+	viol             []core.Violation
 	unscriptedRemote int
 	lastTl           string // timeline of the lookup response served last (schedules: unscripted tile reads follow it)
-	keyReads int
-	gate    func(op, file string) // optional scheduling gate (C14)
-	faultsServed int
-	lastLookupHead map[int]sumworld.HeadLabel // key -> head of the most recent lookup response served
-	ev      func(k string, in any)               // optional event sink (E3 recording)
-	chaos   func(op string, f absFile) *scripted // optional random adversary (E3): nil result = honest
-	curTl   string                               // timeline the honest server answers from
-	clientCalls []string                         // "<client> <op> <file>" (concurrent replays)
-	servedHeads []int                            // sizes of the good heads handed to clients in lookup responses
+	keyReads         int
+	gate             func(op, file string) // optional scheduling gate (C14)
+	faultsServed     int
+	lastLookupHead   map[int]sumworld.HeadLabel           // key -> head of the most recent lookup response served
+	ev               func(k string, in any)               // optional event sink (E3 recording)
+	chaos            func(op string, f absFile) *scripted // optional random adversary (E3): nil result = honest
+	curTl            string                               // timeline the honest server answers from
+	clientCalls      []string                             // "<client> <op> <file>" (concurrent replays)
+	servedHeads      []int                                // sizes of the good heads handed to clients in lookup responses
 }
 
 func newScriptOps(w *sumworld.World, cfg0 sumworld.HeadLabel, served map[string]int) *scriptOps {
